@@ -96,7 +96,10 @@ DefAcquire(g, t, k, mw) ==
 ----------------------------------------------------------------------------
 Init == now = 0 /\ st = InitSt /\ grants = <<>> /\ hist = <<>>
 
-Blocking(api) == api \in {"Block", "Exec"}
+Blocking(api) == api \in {"Block", "Exec", "BlockDl"}
+\* "BlockDl": a blocking acquire whose context has a deadline l.dl units away: when the wait is longer, the call returns the
+\* context's error at the deadline (the reserved permits stay reserved: a cancelled wait is not a refusal)
+Elapsed(l, w) == IF l.api = "BlockDl" /\ w > l.dl THEN l.dl ELSE w
 
 Call(l) ==
   LET c == Code(st, now, l.k, l.mw)
@@ -105,9 +108,9 @@ Call(l) ==
      \* the log is derived from the CODE-shaped operator (k singles), so the bounds below are checks of the code's design
      /\ grants' = IF c.wait = -1 THEN grants ELSE grants \o CodeSingles(st, now, l.k).inst
      \* a blocking call returns when its wait has elapsed
-     /\ now' = IF Blocking(l.api) /\ d.wait # -1 THEN now + d.wait ELSE now
+     /\ now' = IF Blocking(l.api) /\ d.wait # -1 THEN now + Elapsed(l, d.wait) ELSE now
      \* expected observation = the definition's answer
-     /\ hist' = Append(hist, [act |-> l.api, k |-> l.k, mw |-> l.mw, d |-> 0, wait |-> d.wait])
+     /\ hist' = Append(hist, [act |-> l.api, k |-> l.k, mw |-> l.mw, d |-> IF l.api = "BlockDl" THEN l.dl ELSE 0, wait |-> d.wait])
 
 Tick(dd) ==
   /\ now' = now + dd /\ UNCHANGED <<st, grants>>
